@@ -29,8 +29,10 @@ ASSUMPTIONS = [
     'SQLite file; only apps that no remaining app refers to are removed '
     '(Django could not load the remaining models otherwise)',
 ]
-FLOORS = {'quick': {'nontrivial': 20, 'tables_compared': 100},
-          'thorough': {'nontrivial': 300, 'tables_compared': 1500}}
+FLOORS = {'quick': {'nontrivial': 20, 'tables_compared': 100,
+                    'stale_referrer_cases': 4},
+          'thorough': {'nontrivial': 300, 'tables_compared': 1500,
+                       'stale_referrer_cases': 50}}
 SIZES = {'quick': 64, 'thorough': 600}
 TIMEOUT = {'quick': 170, 'thorough': 1700}
 APPS = ('app1', 'app2', 'app3', 'app4')
